@@ -11,6 +11,7 @@ Inductive pexp :=
 | PHere
 | PSizeOf (k : labelkind) (s : bytes)
 | PLabel (k : labelkind) (s : bytes)
+| PIsDef (k : labelkind) (s : bytes)     (* `@isdef label`: replaced by the number 0/1 when the token is pumped *)
 | PUn (o : unop) (a : pexp)
 | PBin (o : binop) (a b : pexp)
 | PTern (c a b : pexp).
@@ -122,6 +123,7 @@ Fixpoint p11 (f : nat) (ts : list token) : pres :=
     | TNumber v :: r => Ok (PNum v, r)
     | TDir DHere :: r => Ok (PHere, r)
     | TDir DSizeOf :: TLabel k s :: r => Ok (PSizeOf k s, r)
+    | TDir DIsDef :: TLabel k s :: r => Ok (PIsDef k s, r)
     | TDir _ :: _ => Diag DkSyntax
     | TLabel k s :: r => Ok (PLabel k s, r)
     | _ => Diag DkSyntax
@@ -167,6 +169,9 @@ Fixpoint resolve (cx : pctx) (e : pexp) : outcome cexpr :=
     | Some v => Ok (CNum v)
     | None => Ok (CSym d)
     end
+  | PIsDef k s =>
+    d <- qualify (c_ns cx) k s ;;
+    Ok (CNum (match lookup (c_st cx) d with Some _ => 1 | None => 0 end))
   | PUn o a => a' <- resolve cx a ;; Ok (CUn o a')
   | PBin o a b => a' <- resolve cx a ;; b' <- resolve cx b ;; Ok (CBin o a' b')
   | PTern c a b => c' <- resolve cx c ;; a' <- resolve cx a ;; b' <- resolve cx b ;; Ok (CTern c' a' b')
